@@ -240,7 +240,8 @@ def gen_coro_segments(nseg, seed, skip=(), prefix='coro'):
                 ys = [rnd.randint(1, 9) + 10 * j for j in (1, 2, 3)]
                 ythrow = rnd.randint(1, ny) if ny and rnd.random() < 0.15 else 0
                 lo, hi = rnd.choice(bounds)
-                ops.append('cexpect %d %d %d %d %d %d %d %d %d %d %d' % (s, kind, ny, retk, ys[0], ys[1], ys[2], ythrow, 100 * s + rnd.randint(0, 9), lo, hi))
+                ords = [0] + ([1] if ny >= 1 and retk in (1, 2) else []) + ([2] if ny >= 2 and retk in (1, 2) else [])
+                ops.append('cexpect %d %d %d %d %d %d %d %d %d %d %d %d' % (s, kind, ny, retk, ys[0], ys[1], ys[2], ythrow, 100 * s + rnd.randint(0, 9), lo, hi, rnd.choice(ords)))
                 exps[s] = kind
             elif k == 'ccall':
                 free = [i for i in (1, 2, 3, 4) if i not in insts]
